@@ -226,8 +226,9 @@ def Send.finish (finSeesStop : Bool) (s : Send) : Send × Obs :=
 
 /-- `REQUEST_HEADER_FIELDS_TOO_LARGE` on the server: the resolver is consumed; the 431 is written
     on THIS stream unless refused / the peer stopped it (`?` returns the send error instead).  The 431
-    write is modelled without back-pressure (eight bytes; a `resolve_request` pending inside its own
-    `send_response` is not modelled: the scenarios do not combine `wc=` with an oversized request). -/
+    write is modelled without back-pressure (ten bytes, the first write of its stream; a
+    `resolve_request` pending inside its own `send_response` is not modelled: the scenarios give every
+    stream at least 32 bytes of initial credit, so the 431 never waits). -/
 def tooBigServer (cfg : Cfg) (r : Req) : Req × Obs :=
   match cfg.resp431 with
   | none => ({ r with gone := true }, .ans .tooBig)
